@@ -519,7 +519,7 @@ def next_psuedo_matches(state: TokenizerState) -> TokenInfo | None:
 
 def next_end_tokens(state: TokenizerState) -> Iterator[TokenInfo]:
     # Add an implicit NEWLINE if the input doesn't end in one
-    if state.last_line and state.last_line[-1] not in "\r\n" and not state.last_line.strip().startswith("#"):
+    if state.last_line and state.last_line[-1] != "\n" and not state.last_line.strip().startswith("#"):
         yield TokenInfo(
             Token.NEWLINE,
             "",
